@@ -50,6 +50,17 @@ def async_cases(tier, rng):
                     n += 1
                     cases.append(("a%d" % n, "(case a%d async %s (script %s) (labels %s))" % (n, kind, " ".join(script), " ".join(labels)),
                                   {"opfull": kind, "form": "local", "class": "async"}))
+    # long streams: many items ready in one poll (127, 128, 129, 300), also with a pending poll in the middle, then the end
+    for kind in ("from_stream", "from_stream_result"):
+        for m in (127, 128, 129, 300):
+            for cut in (None, 100):
+                items = ["(i %d)" % (i % 7) for i in range(m)]
+                if cut:
+                    items.insert(cut, "p")
+                for tail in (["end"], ["(f 7)"] if kind == "from_stream_result" else ["end"]):
+                    n += 1
+                    cases.append(("a%d" % n, "(case a%d async %s (script %s) (labels poll poll poll closed))" % (n, kind, " ".join(items + tail)),
+                                  {"opfull": kind, "form": "local", "class": "async-long"}))
     return cases
 
 
